@@ -5,7 +5,7 @@ from .. import mengine, kengine
 
 ID = "C15"
 ENGINE = "M"
-TECHNIQUE = "symbolic execution of the MIR of config::tree::parse_size over strings of symbolic Unicode scalar values -> z3 (integers with the MIR's own overflow assertions as obligations); counterexamples embedded in a configuration file and replayed through the public parse_conf"
+TECHNIQUE = "symbolic execution of the MIR of config::tree (parse_size over strings of symbolic Unicode scalar values; parse_conf/parse_section/include over configuration templates with symbolic holes and an in-memory file system) -> z3; counterexamples replayed through the public parse_conf natively (dev + release)"
 
 _G = {}
 I64_MIN, I64_MAX = -(1 << 63), (1 << 63) - 1
@@ -289,12 +289,43 @@ def run(tier):
         log("UNDISCHARGED: n=%d — %s" % (r["n"], r.get("why", r["verdict"])))
         if r.get("tb"):
             log("      " + r["tb"].replace("\n", "\n      "))
+    # ---- the tree parser (parse_conf / parse_section / include) on templates
+    from . import c15_tree
+    try:
+        tp = c15_tree.run_part(tier, mir)
+    except Exception as e:
+        log("UNDISCHARGED: config tree parser — %s" % str(e)[:500])
+        tp = {"results": [], "violations": [], "known_hits": [], "machinery": [], "undischarged": [{"template": "all", "why": str(e)[:300]}], "validation": {}}
+    for v in tp["known_hits"]:
+        log("KNOWN-FINDING: property=%s key=%s %s [parse_conf(%r) -> %s]" % (ID, v["key"], known[(ID, v["key"])], v["text"], v["native_dev"][:80]))
+    for i, v in enumerate(tp["violations"][:3]):
+        path = os.path.join(REPLAY_DIR, "C15-tree-%d.json" % i)
+        with open(path, "w") as f:
+            json.dump(dict(v, property=ID, engine="M", how="./check C15 --replay " + path), f, indent=1)
+        log("VIOLATION property=%s replay=%s" % (ID, path))
+        log("   parse_conf(%r)%s -> %s (release %s); required: %s (template %s: %s)" % (v["text"], " with include files %s" % sorted(v["files"]) if v["files"] else "", v["native_dev"][:160], v["native_release"][:100],
+                                                                                    v["expected"] or "a value or an error", v["template"], v["failed"][:120]))
+        rc = 1
+    for m in tp["machinery"][:3]:
+        log("MACHINERY-ERROR: " + m)
+        rc = rc or 2
+    for r in tp["undischarged"][:5]:
+        log("UNDISCHARGED: config template %s — %s" % (r.get("template"), r.get("why")))
+    okt = [r for r in tp["results"] if r["verdict"] == "unsat"]
+    log("   tree parser: %d/%d templates discharged (tree == what the file describes / fault rejected with its line / no panic), translator validation on %s files" % (len(okt), len(tp["results"]), tp["validation"].get("files")))
+    violations = violations + [dict(v, value=v["text"], n=len(v["text"]), check=v["failed"]) for v in tp["violations"]]
     ok = [r for r in results if r["verdict"] == "unsat"]
     cov = {
-        "evaluations": len(results), "distinct_nontrivial": len([r for r in results if r["verdict"] in ("unsat", "sat") and r["n"] >= 2]),
+        "tree_parser": {"templates": len(tp["results"]), "discharged": len(okt), "kinds": {k: len([r for r in tp["results"] if r.get("kind") == k]) for k in ("tree", "error", "nopanic")},
+                        "names": [r["template"] for r in tp["results"]], "validation": tp["validation"], "undischarged": tp["undischarged"], "known_findings_seen": tp["known_hits"],
+                        "functions_encoded": "humphrey-server/src/config/tree.rs: parse_conf, parse_section (recursive), include, clean_up, quiet_assert, parse_size (MIR of the current working tree); traceback.rs TracebackIterator (modelled: 3 lines)",
+                        "obligations": "tree: every path returns Ok with exactly the tree written next to the template; error: every path returns Err naming the expected file and line; nopanic: a value or an error on every path",
+                        "include": "File::open / read_to_string answer from an in-memory file system given with the template; the native replay writes the same files into a scratch directory",
+                        "std_models_trusted": sorted(set(m for r in tp["results"] for m in r.get("models", [])))},
+        "evaluations": len(results) + len(tp["results"]), "distinct_nontrivial": len([r for r in results if r["verdict"] in ("unsat", "sat") and r["n"] >= 2]) + len([r for r in tp["results"] if r["verdict"] in ("unsat", "sat")]),
         "rule": "one evaluation = one token length n: z3 decides `no panic`, `accepted iff <int> or <int>[KMG] fitting i64`, `value = int*1024^j` for ALL strings of n Unicode scalar values that can form a value token; non-trivial = n >= 2 and a verdict",
         "samples": [{k: r.get(k) for k in ("n", "verdict", "paths", "n_checks", "symex_s", "solver_s")} for r in results[:4]],
-        "obligations": len(results), "discharged": len(ok),
+        "obligations": len(results) + len(tp["results"]), "discharged": len(ok) + len(okt),
         "states": max(1, sum(r.get("blocks", 0) for r in results)), "transitions": max(1, sum(r.get("feasibility_queries", 0) + r.get("n_checks", 0) for r in results)),
         "traces_validated_against_impl": len(nat) + len(violations) + len(known_hits) + len(machinery),
         "undischarged": [{"n": r["n"], "why": r.get("why", r["verdict"])} for r in undis],
@@ -302,8 +333,7 @@ def run(tier):
         "functions_encoded": ["humphrey-server/src/config/tree.rs: parse_size (private; MIR of the current working tree)"],
         "std_models_trusted": sorted(set(m for r in results for m in r.get("models", []))),
         "bounds": {"token_length": "1..%d characters and %s" % (NMAX, extra), "characters": "symbolic Unicode scalar values that may appear inside a value token (no whitespace, no # { } \")"},
-        "outside_bounds": ["everything else in the configuration loader: sections, hosts, routes, includes, comments, defaults, Config::from_tree (HashMap, files), quoted strings / booleans / plain integers (typed by earlier branches of parse_section with std parsers)",
-                           "the section/host-name slicing in parse_section (e.g. the line `host \" {` panics with 'slice index starts at 1 but ends at 0': observed by reading, not decided by this check)"],
+        "outside_bounds": ["Config::from_tree (tree -> Config: HashMap, defaults, validation rules, blacklist/route files on disk)", "configuration texts outside the listed templates; holes never contain line terminators or non-ASCII characters (parse_size covers non-ASCII value tokens)"],
         "translator_validation": {"tokens": len(nat), "disagreements": 0},
         "solver_time_s": round(sum(r.get("solver_s", 0) for r in results), 2),
         "engines": {"mirsym": "own MIR symbolic executor", "z3": "5.1.0"}, "repo_head": git_head(REPO), "repo_dirty": repo_dirty(), "exhaustive": False,
@@ -317,6 +347,12 @@ def run(tier):
 def replay(d, path):
     mengine.setup(ID)
     kengine.write_lists({})
+    if d.get("kind") == "conftree":
+        from . import c15_tree
+        if c15_tree.replay(d):
+            log("VIOLATION property=%s replay=%s" % (ID, path))
+            return 1
+        return 0
     exe = mengine.build_mtool("debug")
     n, raw = native_value(exe, d["value"])
     want = ref_value(d["value"])
